@@ -267,6 +267,49 @@ def classify(case, d, sweep_too=True):
         shutil.rmtree(d, ignore_errors=True)
 
 
+def oracle_perturb(ctx, rng, n_cases, n_leaves):
+    """single-key perturbation sweep: every numeric input key of a valid case set to 0, -1, 1e-9 x and 1e9 x its value.  Whether
+    such an input is 'impossible' is not judged here; the second clause of the property is: whatever the reader and the set-up
+    do with it, they end with an error message or run - never with an unhandled exception or a hang."""
+    for ci in range(n_cases):
+        case = valid_case(rng, several=ci % 2 == 1)
+        if classify(case, str(ctx.work / "pv"))[0] != 'accepted':
+            continue
+        leaves = []
+        for tn, t in case['types'].items():
+            for k, v in t.items():
+                if isinstance(v, (int, float)) and not isinstance(v, bool):
+                    leaves.append(('types', tn, k))
+                if k == 'duct_ftf':
+                    leaves += [('types', tn, k, i) for i in range(len(v))]
+                if k == 'AxialRegion' and v:
+                    for ri, r_ in enumerate(v):
+                        leaves += [('types', tn, k, ri, kk) for kk, vv in r_.items()
+                                   if isinstance(vv, (int, float)) and not isinstance(vv, bool)]
+        leaves += [('core', k) for k, v in case['core'].items() if isinstance(v, (int, float)) and not isinstance(v, bool)]
+        leaves += [('setup', k) for k, v in case['setup'].items() if isinstance(v, (int, float)) and not isinstance(v, bool)]
+        for a_i, a in enumerate(case['assignment']):
+            leaves += [('assignment', a_i, k) for k in ('flowrate', 'outlet_temp', 'delta_temp') if k in a]
+        for leaf in rng.sample(leaves, min(n_leaves, len(leaves))):
+            for val in (0.0, -1.0, 1e-9, 1e9):
+                c = copy.deepcopy(case)
+                o = c
+                for p_ in leaf[:-1]:
+                    o = o[p_]
+                o[leaf[-1]] = val if val in (0.0, -1.0) else o[leaf[-1]] * val
+                cls, detail, computed = classify(c, str(ctx.work / "pp"))
+                ctx.evals += 1
+                key = leaf[-1] if not isinstance(leaf[-1], int) else leaf[-2]
+                ctx.count("perturbation:" + cls)
+                if cls == "exception":
+                    ctx.violation("c18-perturbation-exception:%s:%s" % (key, detail), "input key %s set to %r: unhandled exception instead "
+                                  "of an error message or a run (%s)" % ("/".join(map(str, leaf)), o[leaf[-1]], detail),
+                                  case=c, key=list(leaf))
+                elif cls == "hang":
+                    ctx.violation("c18-perturbation-hang:%s" % key, "input key %s set to %r: the run does not terminate"
+                                  % ("/".join(map(str, leaf)), o[leaf[-1]]), case=c, key=list(leaf))
+
+
 def model_request(case):
     t_list = list(case['types'].values())
     parts = ["accept %d %d %d %d" % (bits(case['core']['length']), bits(case['core']['assembly_pitch']),
@@ -376,6 +419,7 @@ def run(ctx):
                 ctx.problem("correspondence", "Model.Accept vs DASSH_Input", "reader rejects fault %s, model accepts" % fault)
         ctx.obligation("differential classification: Model.Accept agrees with the real reader on %d inputs" % len(reqs), bad == 0,
                        kind="correspondence", detail="disagreements %d" % bad)
+    oracle_perturb(ctx, rng, 12 if ctx.thorough else 3, 14 if ctx.thorough else 6)
     ctx.nontrivial = ctx.evals
     ctx.traces = ctx.evals
     ctx.trusted += ["hand model of the numeric acceptance layer; the classification of which inputs are 'impossible' (the fault "
